@@ -71,7 +71,10 @@ CLAIMED = {
         text="Theorems over the Lean model of to_time_zone/to_utc and TimeZone.__init__: re-zoning keeps the instant, carries "
              "exactly the requested offset, keeps the representation and yields valid local fields, for every legal offset "
              "-99:59..+99:59; equal/hash-equal/zero difference follow from C02/C04; the constructor accepts exactly the legal "
-             "offsets. Literal zones in dump formats (Props/C06b): C06_literal_zone_read - the dumper reads every legal literal "
+             "offsets. Props/C06d: a point with 0<=h<24 is determined by instant, offset and representation (C06_canonical), so "
+             "re-zoning through an intermediate offset equals the direct re-zoning field for field (C06_compose), re-zoning to the "
+             "point's own offset is the identity and there-and-back returns the same point (C06_identity_and_round_trip). "
+             "Literal zones in dump formats (Props/C06b): C06_literal_zone_read - the dumper reads every legal literal "
              "+-hh:mm back as that offset; C06_dump_literal_zone(+_bounds) - dumping any valid point with CCYY-MM-DD / CCYY-DDD / "
              "CCYY-Www-D, Thh:mm:ss and a literal zone prints the point re-zoned to that zone (bounds error iff the re-zoned year "
              "leaves 0000-9999); C06_dump_literal_zone_roundtrip - that text parses back to a point at the same instant "
